@@ -11,7 +11,7 @@ import (
 func init() {
 	register(&PropDef{
 		ID: "C14", Level: "exploration", Quick: 10000, Thorough: 500000, QuickCap: 100,
-		Rule:   "each run = one engine (disk: clean restarts and kill-images between requests), 1-40 requests over 2 parents x 3 table ids mixing CreateTable/DeleteTable/GetTable/ListTables, ModifyColumnFamilies with 1-3 modifications (create/update/drop, failing at position k, drop then re-create), DropRowRange (prefix equal to a key, ending in 0xff, matching nothing; all rows) and data requests; after every request the touched rows, and at a drawn frequency every table's schema and rows, are compared with the registry model; distinct = hash of (engine, op shapes); non-trivial = at least 2 requests. A quarter of the runs are concurrent: 2-3 client tasks x 1-4 requests (create, delete, get, list, add/drop a family, mutate, read, drop a prefix, drop all rows) on ONE table name under the seeded scheduler, the history checked with porcupine against a registry model (AlreadyExists / NotFound / fresh table after re-creation / purged family) while an untouched table must stay listed and intact",
+		Rule:   "each run = one engine (disk: clean restarts and kill-images between requests), 1-40 requests over 3 parents (one a string prefix of another) x 3 table ids mixing CreateTable/DeleteTable/GetTable/ListTables, ModifyColumnFamilies with 1-3 modifications (create/update/drop, failing at position k, drop then re-create), DropRowRange (prefix equal to a key, ending in 0xff, matching nothing; all rows) and data requests; after every request the touched rows, and at a drawn frequency every table's schema and rows, are compared with the registry model; distinct = hash of (engine, op shapes); non-trivial = at least 2 requests. A quarter of the runs are concurrent: 2-3 client tasks x 1-4 requests (create, delete, get, list, add/drop a family, mutate, read, drop a prefix, drop all rows) on ONE table name under the seeded scheduler, the history checked with porcupine against a registry model (AlreadyExists / NotFound / fresh table after re-creation / purged family) while an untouched table must stay listed and intact",
 		Real:   []string{"bttest admin handlers (CreateTable, DeleteTable, GetTable, ListTables, ModifyColumnFamilies, DropRowRange)", "data handlers", "all three engines; start-up recovery on disk restarts"},
 		Stub:   []string{"gRPC transport (direct calls)", "process kill = directory image between requests"},
 		Assume: []string{"NotFound / AlreadyExists are required where the statement names them, any error otherwise", "the order of ListTables is unspecified (sorted before comparing)", "an empty row-key prefix is not sent (unspecified)"},
@@ -20,7 +20,7 @@ func init() {
 	expectedProbes["C14"] = []string{"c14.modify_fail_at_k", "c14.drop_family_with_data", "c14.recreate_table", "c14.drop_prefix_hit", "c14.deleted_table_request", "restart", "c14.concurrent_creates", "c14.overlapping_admin_ops", "c14.porcupine_ok"}
 }
 
-var c14Parents = []string{"projects/p/instances/i1", "projects/p/instances/i2"}
+var c14Parents = []string{"projects/p/instances/i1", "projects/p/instances/i2", "projects/p/instances/i10"} // i1 is a string prefix of i10
 var c14IDs = []string{"t", "t2", "u"}
 var c14Prefixes = []string{"a", "a\x00", "ab", "a\xff", "\xff", "zz", "b", "\x00", "a\x00\x00"}
 var c14Fams = []string{"f1", "f2", "g"}
@@ -56,7 +56,7 @@ func makeC14GenMix(r *Run, mix int) func(d *draws, m *btModel, i int) btOp {
 			return names[d.n(len(names))]
 		}
 		d.n(1)
-		return c14Parents[d.n(2)] + "/tables/" + c14IDs[d.n(3)]
+		return c14Parents[d.n(3)] + "/tables/" + c14IDs[d.n(3)]
 	}
 	return func(d *draws, m *btModel, i int) btOp {
 		kind := d.w(weights...)
@@ -73,7 +73,7 @@ func makeC14GenMix(r *Run, mix int) func(d *draws, m *btModel, i int) btOp {
 					fams[c14Fams[k]] = g
 				}
 			}
-			p, id := c14Parents[d.w(3, 1)], c14IDs[d.w(3, 2, 1)]
+			p, id := c14Parents[d.w(3, 1, 2)], c14IDs[d.w(3, 2, 1)]
 			if deleted[p+"/tables/"+id] {
 				r.Probe("c14.recreate_table")
 			}
@@ -87,7 +87,7 @@ func makeC14GenMix(r *Run, mix int) func(d *draws, m *btModel, i int) btOp {
 		case 2:
 			return btOp{Kind: "GetTable", Table: pickTable(d, m)}
 		case 3:
-			return btOp{Kind: "ListTables", Parent: c14Parents[d.n(2)]}
+			return btOp{Kind: "ListTables", Parent: c14Parents[d.n(3)]}
 		case 4:
 			t := pickTable(d, m)
 			nm := 1 + d.w(4, 3, 2)
